@@ -43,11 +43,10 @@ def run(ctx):
         if rng.random() < 0.5:
             K = tablegen.perturbed_preset(rng)
         try:
-            sf.set_semantic_constraints(dict(K))
+            table = tablegen.set_table_hostile(sf, K, rng, ctx)
         except ValueError:
             ctx.count("table_rejected")
             continue
-        table = sf.get_semantic_constraints()
         gen_table = {k: v + rng.choice([0, 0, 1, 1, 2]) for k, v in table.items()}
         aromatic = rng.random() < 0.08
         P = set()
